@@ -25,6 +25,8 @@ enum AState {
         site: &'static str,
         detail: u128,
         guard: Option<GuardPtr>,
+        /// poll point: enabled only once the global activity counter has moved past this value
+        poll_seen: Option<u64>,
     },
     Done,
 }
@@ -75,6 +77,7 @@ struct Inner {
     task_ids: Vec<String>,
     task_hits: HashMap<(usize, &'static str), u64>,
     note_cb: Option<Arc<dyn Fn(&'static str, &str) + Send + Sync>>,
+    activity: u64,
 }
 
 pub struct SimCtrl {
@@ -135,6 +138,7 @@ impl SimCtrl {
                 task_ids: Vec::new(),
                 task_hits: HashMap::new(),
                 note_cb: None,
+                activity: 0,
             }),
             sched_cv: Condvar::new(),
         }
@@ -162,6 +166,7 @@ impl SimCtrl {
         g.task_ids.clear();
         g.task_hits.clear();
         g.note_cb = None;
+        g.activity = 0;
         // drop finished / stale actors to keep the table small
         let epoch = g.epoch;
         for a in g.actors.iter_mut() {
@@ -309,10 +314,11 @@ impl SimCtrl {
             if a.epoch != g.epoch {
                 continue;
             }
-            if let AState::Parked { site, detail, guard } = &a.state {
-                let ok = match guard {
-                    None => true,
-                    Some(p) => unsafe { (*p.0)() },
+            if let AState::Parked { site, detail, guard, poll_seen } = &a.state {
+                let ok = match (guard, poll_seen) {
+                    (_, Some(seen)) => g.activity > *seen,
+                    (None, None) => true,
+                    (Some(p), None) => unsafe { (*p.0)() },
                 };
                 if ok {
                     out.push(Enabled {
@@ -384,7 +390,7 @@ impl SimCtrl {
             .iter()
             .filter(|a| a.epoch == g.epoch)
             .filter(|a| match &a.state {
-                AState::Parked { guard: Some(p), .. } => !unsafe { (*p.0)() },
+                AState::Parked { guard: Some(p), poll_seen: None, .. } => !unsafe { (*p.0)() },
                 _ => false,
             })
             .count()
@@ -422,6 +428,84 @@ impl SimCtrl {
     }
 }
 
+impl SimCtrl {
+    fn park(&self, site: &'static str, detail: u128, guard: Option<xs::verif::Guard<'_>>, poll: bool) {
+        let Some((idx, epoch)) = ACTOR.with(|a| a.get()) else {
+            return;
+        };
+        let mut g = self.lock();
+        if !g.active || g.epoch != epoch || g.pass_sites.contains(site) {
+            return;
+        }
+        *g.site_hits.entry(site).or_insert(0) += 1;
+        let gp = guard.map(|gd| {
+            // lifetime erased: the guard is only evaluated while this thread is parked in here
+            let p: *const (dyn Fn() -> bool + Sync + '_) = gd;
+            GuardPtr(unsafe { std::mem::transmute::<_, *const (dyn Fn() -> bool + Sync + 'static)>(p) })
+        });
+        if !poll {
+            g.activity += 1;
+        }
+        let seen = g.activity;
+        let cv = {
+            let a = &mut g.actors[idx];
+            a.state = AState::Parked {
+                site,
+                detail,
+                guard: gp,
+                poll_seen: if poll { Some(seen) } else { None },
+            };
+            a.release = false;
+            a.cv.clone()
+        };
+        g.running = g.running.saturating_sub(1);
+        self.sched_cv.notify_all();
+        loop {
+            if g.actors[idx].release {
+                break;
+            }
+            g = cv.wait(g).unwrap_or_else(|e| e.into_inner());
+        }
+        let a = &mut g.actors[idx];
+        a.release = false;
+        a.state = AState::Running;
+    }
+
+    /// Something happened that a polling actor may be waiting for.
+    pub fn bump_activity(&self) {
+        self.lock().activity += 1;
+    }
+
+    /// A restart inside one run: every actor and task registered so far becomes stale (it
+    /// runs free, all hooks pass for it); clock, ids and knobs continue.
+    pub fn new_generation(&self) {
+        let mut g = self.lock();
+        g.epoch += 1;
+        g.pending = 0;
+        g.running = 0;
+        g.kind_count.clear();
+        g.task_ids.clear();
+        g.task_hits.clear();
+        let epoch = g.epoch;
+        for a in g.actors.iter_mut() {
+            if a.epoch != epoch {
+                if let AState::Parked { .. } = a.state {
+                    a.release = true;
+                    a.cv.notify_all();
+                }
+            }
+        }
+        g.aparked.retain(|p| {
+            if p.epoch != epoch {
+                if let Some(w) = &p.waker {
+                    w.wake_by_ref();
+                }
+            }
+            p.epoch == epoch
+        });
+    }
+}
+
 struct APointFuture {
     ctrl: Arc<SimCtrl>,
     id: Option<u64>,
@@ -456,6 +540,7 @@ impl Future for APointFuture {
                     }
                 };
                 *g.task_hits.entry((task, self.site)).or_insert(0) += 1;
+                g.activity += 1;
                 g.aparked.push(AParked {
                     id,
                     task,
@@ -502,40 +587,20 @@ impl Drop for APointFuture {
 
 impl xs::verif::Controller for SimCtrl {
     fn point(&self, site: &'static str, detail: u128, guard: Option<xs::verif::Guard<'_>>) {
-        let Some((idx, epoch)) = ACTOR.with(|a| a.get()) else {
-            return;
+        self.park(site, detail, guard, false);
+    }
+
+    fn poll_point(&self, site: &'static str) {
+        self.park(site, 0, None, true);
+    }
+
+    fn active(&self) -> bool {
+        // only for threads that are actors of the current run
+        let Some((_, epoch)) = ACTOR.with(|a| a.get()) else {
+            return false;
         };
-        let mut g = self.lock();
-        if !g.active || g.epoch != epoch || g.pass_sites.contains(site) {
-            return;
-        }
-        *g.site_hits.entry(site).or_insert(0) += 1;
-        let gp = guard.map(|gd| {
-            // lifetime erased: the guard is only evaluated while this thread is parked in here
-            let p: *const (dyn Fn() -> bool + Sync + '_) = gd;
-            GuardPtr(unsafe { std::mem::transmute::<_, *const (dyn Fn() -> bool + Sync + 'static)>(p) })
-        });
-        let cv = {
-            let a = &mut g.actors[idx];
-            a.state = AState::Parked {
-                site,
-                detail,
-                guard: gp,
-            };
-            a.release = false;
-            a.cv.clone()
-        };
-        g.running = g.running.saturating_sub(1);
-        self.sched_cv.notify_all();
-        loop {
-            if g.actors[idx].release {
-                break;
-            }
-            g = cv.wait(g).unwrap_or_else(|e| e.into_inner());
-        }
-        let a = &mut g.actors[idx];
-        a.release = false;
-        a.state = AState::Running;
+        let g = self.lock();
+        g.active && g.epoch == epoch
     }
 
     fn apoint(&self, site: &'static str, detail: u128) -> Pin<Box<dyn Future<Output = ()> + Send>> {
@@ -590,6 +655,7 @@ impl xs::verif::Controller for SimCtrl {
         if idx < g.actors.len() {
             g.actors[idx].state = AState::Done;
         }
+        g.activity += 1;
         if g.active && g.epoch == epoch {
             g.running = g.running.saturating_sub(1);
             self.sched_cv.notify_all();
